@@ -135,6 +135,13 @@ pub fn run(tier: Tier) -> Report {
         );
         rep.set(&format!("inits[{label}]"), json!(m.inits.iter().map(|i| i.0.clone()).collect::<Vec<_>>()));
     }
+    if !tier.is_quick() {
+        // thorough tier: bind the mirrored glue to the real event loop by one real-time run
+        match crate::conformance::check() {
+            Ok(obs) => rep.set("glue_conformance_run", json!(format!("real run_sender_with_config (real time, 2 uplinks, 200 datagrams, one NAK) and the mirrored world agree: {obs}"))),
+            Err(e) => rep.machinery_errors.push(e),
+        }
+    }
     rep.set("oracle", json!("ledger + wire monitor after every event: every client-type datagram on a receiver socket is, byte for byte, the next pending accepted datagram of that link (integrity, per-link order, pairing); after each flush tick every link's queue is empty and everything accepted has been seen on the wire unless that link was reset in between (teardown, re-registration, reconnect) or its receiver is closed; between flushes a queue never exceeds 32; a datagram is never dropped while the session is established and a usable link exists; extra copies are byte-identical, only of data packets, only on links the selector reports stall-gated, at most ceil(routed/100) per gated link; the three batch vectors stay in step"));
     rep.assume("short sendmmsg results cannot be forced on loopback: send_all_datagrams' resend loop is not exercised (stated as not exercised, not claimed)");
     rep.assume("datagrams sent into a closed receiver socket are unobservable; for that link the monitor only checks the queue discipline until the socket is reopened and the queue has drained");
